@@ -1,10 +1,13 @@
 import RedisGoModel.Exec.StringKeys
 import RedisGoModel.Exec.Set
+import RedisGoModel.Exec.Hash
 /-! Command table and dispatch (`server.Manager.ExecCommand`: lower-cased command name, table lookup). -/
 namespace Exec
 open Resp (Reply Bytes)
 
-def cmdTable : List (String × Cmd) := stringKeyTable ++ setTable
+def cmdTable : List (String × Cmd) := stringKeyTable
+  ++ setTable
+  ++ hashTable
 
 def lookupCmd (name : Bytes) : Option Cmd :=
   (cmdTable.find? fun p => ofStr p.1 == name).map (·.2)
@@ -18,12 +21,33 @@ def exec (env : Env) (db : Db) (args : List Bytes) : Reply × Db :=
     | none => (.err (ofStr "ERR unknown command"), db)
 
 /-- replies whose element order depends on Go map iteration are compared after sorting -/
-def unorderedCmds : List String := ["keys", "smembers", "sunion", "sinter", "sdiff"]
+def unorderedCmds : List String := ["keys"]
+  ++ ["smembers", "sunion", "sinter", "sdiff"]
+  ++ ["hkeys", "hvals"]
 
 def sortReplies (l : List Reply) : List Reply :=
   sortBy (fun a b => bytesLt (Resp.encode a) (Resp.encode b)) l
 
+/-- a flat field/value reply (HGETALL) is compared as a sorted list of pairs, not as a flat sort -/
+def pairedCmds : List String := ["hgetall"]
+
+def pairUp : List Reply → Option (List (Reply × Reply))
+| [] => some []
+| a :: b :: rest => (pairUp rest).map ((a, b) :: ·)
+| [_] => none
+
+def sortPairs (l : List Reply) : List Reply :=
+  match pairUp l with
+  | some ps => (sortBy (fun a b => bytesLt (Resp.encode a.1 ++ Resp.encode a.2) (Resp.encode b.1 ++ Resp.encode b.2)) ps).flatMap
+      fun p => [p.1, p.2]
+  | none => l
+
 def canonReply (name : Bytes) (r : Reply) : Reply :=
+  if pairedCmds.any (fun n => ofStr n == name) then
+    match r with
+    | .arr (some l) => .arr (some (sortPairs l))
+    | r => r
+  else
   if unorderedCmds.any (fun n => ofStr n == name) then
     match r with
     | .arr (some l) => .arr (some (sortReplies l))
